@@ -277,6 +277,13 @@ def rows_of(v):
             ua = unfn(av)
             if ua and ua[0] == "idx" and not isinstance(ua[1][1], str) and ua[1][1].is_const():
                 continue                      # one sample: broadcast along the rows
+            if ua and ua[0] == "idx" and not isinstance(ua[1][1], str):
+                us = unfn(ua[1][1])
+                if us and us[0] == "slice" and len(us[1]) == 3 and not any(isinstance(q, str) for q in us[1]) and sym_of(us[1][2]) == "None":
+                    lo = None if sym_of(us[1][0]) == "None" else (us[1][0].const_value() if us[1][0].is_const() else "?")
+                    hi = None if sym_of(us[1][1]) == "None" else (us[1][1].const_value() if us[1][1].is_const() else "?")
+                    if (lo == -1 and hi is None) or (lo not in (None, "?") and hi not in (None, "?") and (lo >= 0) == (hi >= 0) and hi - lo == 1):
+                        continue              # X[-1:], X[k:k+1]: one row, broadcast
             if ua and ua[0].startswith("red:"):
                 continue                      # a reduction over the rows: broadcast
         if d[0] in ("exp", "sin", "cos", "sqrt"):
@@ -290,10 +297,29 @@ def rows_of(v):
 
 
 RED = {"max": "max", "amax": "max", "min": "min", "amin": "min", "mean": "mean", "sum": "sum", "nanmax": "nanmax", "nanmin": "nanmin"}
+RED_NP = dict(RED, average="mean")          # np.average(x, axis) without weights
 
 
 def _is_np(d):
     return d is not None and d.startswith(("np.", "numpy."))
+
+
+STR_METHODS = frozenset("startswith endswith lower upper strip lstrip rstrip find rfind index rindex count replace title capitalize casefold swapcase "
+                        "isdigit isalpha isalnum islower isupper zfill removeprefix removesuffix split rsplit partition rpartition format join center "
+                        "ljust rjust".split())
+
+
+def _py_value(r):
+    """a Python constant (str, bool, int, None, tuple / list of such) as a value; Unknown otherwise"""
+    if isinstance(r, bool) or r is None:
+        return {None: NONE, True: TRUE, False: FALSE}[r]
+    if isinstance(r, str):
+        return S(r)
+    if isinstance(r, int):
+        return F.const(r)
+    if isinstance(r, (tuple, list)):
+        return PyTuple(_py_value(x) for x in r)
+    return Unknown(f"a constant of type {type(r).__name__}")
 
 
 # element-wise numpy functions that are spellings of an operator / of a function the algebra knows: np.subtract(a, b) is a - b, np.negative(a) is -a
@@ -349,7 +375,7 @@ def array_call(node, ev):
     attr = node.func.attr if isinstance(node.func, ast.Attribute) else None
     kw = {k.arg: k.value for k in node.keywords if k.arg is not None}
     # reductions: x.max(axis=0) / np.max(x, axis=0) / np.amax(x, 0) / x.min()
-    if attr in RED and (not _is_np(d) or node.args):
+    if (attr in RED or (attr in RED_NP and _is_np(d) and "weights" not in kw and len(node.args) <= 2)) and (not _is_np(d) or node.args):
         if _is_np(d):
             arr, rest = node.args[0], node.args[1:]
         else:
@@ -359,15 +385,19 @@ def array_call(node, ev):
         if is_unknown(a) or isinstance(a, (tuple, DictValue)):
             return NotImplemented
         axv = ev.ev(ax) if ax is not None else NONE
-        if is_unknown(axv) or isinstance(axv, tuple) or any(k != "axis" for k in kw):
-            return NotImplemented
-        return F.fn("red:" + RED[attr], need(a), need(axv))
+        if is_unknown(axv) or isinstance(axv, tuple) or any(k not in ("axis", "keepdims") for k in kw):
+            return NotImplemented                    # keepdims only changes the shape the result broadcasts with
+        return F.fn("red:" + RED_NP[attr], need(a), need(axv))
     if d == "len" and len(node.args) == 1:
         a = ev.ev(node.args[0])
-        if is_unknown(a) or isinstance(a, DictValue):
+        if isinstance(a, DictValue):
+            return F.const(len(a.d))
+        if is_unknown(a):
             return NotImplemented
         if isinstance(a, tuple):
             return F.const(len(a))
+        if str_of(a) is not None:
+            return F.const(len(str_of(a)))
         return rows_of(a)
     if _is_np(d) and d.count(".") == 1 and not (set(kw) - UFUNC_KW) and not any(isinstance(a, ast.Starred) for a in node.args):
         last = d.split(".")[1]
@@ -397,6 +427,21 @@ def array_call(node, ev):
                 return NotImplemented
             sh = F.fn("tuple", *[need(x) for x in sh])
         return F.fn("zeros" if d.endswith("zeros") else "empty", need(sh))
+    if d in ("np.full", "numpy.full") and len(node.args) + ("fill_value" in kw) >= 2 and (node.args or "shape" in kw):
+        # np.full(shape, v): zeros of that shape plus v
+        sh = ev.ev(node.args[0] if node.args else kw["shape"])
+        v = ev.ev(node.args[1] if len(node.args) > 1 else kw["fill_value"])
+        if isinstance(sh, tuple) and not any(is_unknown(x) or isinstance(x, tuple) for x in sh) and not is_unknown(v) and not isinstance(v, (tuple, DictValue)):
+            return F.fn("zeros", F.fn("tuple", *[need(x) for x in sh])) + need(v)
+    if d in ("np.tile", "numpy.tile", "np.broadcast_to", "numpy.broadcast_to") and len(node.args) == 2 and not kw:
+        # a row repeated n times: np.tile(row, (n, 1)) / np.broadcast_to(row, (n, H)) is zeros((n, H)) + row
+        v, reps = ev.ev(node.args[0]), ev.ev(node.args[1])
+        if isinstance(reps, tuple) and len(reps) == 2 and not any(is_unknown(x) or isinstance(x, tuple) for x in reps) and not is_unknown(v) \
+                and not isinstance(v, (tuple, DictValue)):
+            if d.endswith("tile") and need(reps[1]).equals(1):
+                return F.fn("zeros", F.fn("tuple", need(reps[0]), F.fn("rows", need(v)))) + need(v)
+            if d.endswith("broadcast_to"):
+                return F.fn("zeros", F.fn("tuple", need(reps[0]), need(reps[1]))) + need(v)
     if d in ("np.vstack", "numpy.vstack", "np.concatenate", "numpy.concatenate", "np.row_stack") and node.args \
             and isinstance(node.args[0], (ast.Tuple, ast.List)) and len(node.args[0].elts) == 2:
         if d.endswith("concatenate"):
@@ -447,6 +492,28 @@ def array_call(node, ev):
             n = sym_of(v)
             if n is not None and ev.inline and n in ev.inline:
                 return TRUE
+    if attr in STR_METHODS and not _is_np(d) and not kw and isinstance(node.func, ast.Attribute):
+        base = ev.ev(node.func.value)
+        sv = str_of(base)
+        if sv is not None:
+            # a method of a string literal on constants: computed (options are strings: `stype.startswith("rel")`, `ic.lower()`)
+            args = []
+            for a_ in node.args:
+                x = ev.ev(a_)
+                if isinstance(x, tuple) and all(str_of(q) is not None for q in x):
+                    args.append(tuple(str_of(q) for q in x))
+                    continue
+                ok, k = pykey(x)
+                if not ok:
+                    args = None
+                    break
+                args.append(k)
+            if args is not None:
+                try:
+                    r = getattr(sv, attr)(*args)
+                except Exception:  # noqa  (the call raises at run time: not a value)
+                    return Unknown(f"'{sv}'.{attr}(...) raises")
+                return _py_value(r)
     if attr in ("index", "count") and not _is_np(d) and len(node.args) == 1 and not kw:
         base = ev.ev(node.func.value)
         if isinstance(base, tuple):
@@ -502,6 +569,31 @@ def array_subscript(node, ev):
                 and 0 < sl.upper.value <= 3:
             return tuple(dim(k) for k in range(sl.upper.value))
         return NotImplemented
+    if not isinstance(sl, ast.Tuple) and not (isinstance(v, ast.Name) and v.id in ev.buffers):
+        sv = str_of(ev.ev(v))
+        if sv is not None:
+            # a character / a slice of a string literal
+            try:
+                if isinstance(sl, ast.Slice):
+                    parts = [None if p_ is None else pykey(ev.ev(p_)) for p_ in (sl.lower, sl.upper, sl.step)]
+                    if all(p_ is None or (p_[0] and isinstance(p_[1], int)) for p_ in parts):
+                        return S(sv[slice(*[None if p_ is None else p_[1] for p_ in parts])])
+                else:
+                    ok, k = pykey(ev.ev(sl))
+                    if ok and isinstance(k, int) and not isinstance(k, bool):
+                        return S(sv[k])
+            except Exception:  # noqa
+                return Unknown("index of a string literal out of range")
+    # the first row, kept as a row: X[:1] / X[0:1] / X[[0]] broadcast like X[0]
+    if isinstance(sl, ast.Slice) and sl.step is None and sl.upper is not None and (sl.lower is None or (isinstance(sl.lower, ast.Constant) and sl.lower.value == 0)) \
+            and isinstance(sl.upper, ast.Constant) and sl.upper.value == 1 and not (isinstance(v, ast.Name) and v.id in ev.buffers):
+        base = ev.ev(v)
+        if not is_unknown(base) and not isinstance(base, (tuple, DictValue)) and str_of(base) is None:
+            return F.fn("idx", need(base), F.const(0))
+    # X[i, :] / X[i, ...]: trailing full slices select everything
+    if isinstance(sl, ast.Tuple) and len(sl.elts) >= 2 and all(_full_slice(e) for e in sl.elts[1:]) and not _full_slice(sl.elts[0]) \
+            and not (isinstance(sl.elts[0], ast.Constant) and sl.elts[0].value is None) and not isinstance(sl.elts[0], ast.Starred):
+        return ev.ev(ast.copy_location(ast.Subscript(value=v, slice=sl.elts[0], ctx=ast.Load()), node))
     # new axes / full slices only: the element-wise value
     elts = sl.elts if isinstance(sl, ast.Tuple) else [sl]
     if elts and all((isinstance(e, ast.Slice) and e.lower is None and e.upper is None and e.step is None)
@@ -589,6 +681,23 @@ def effect_targets(call):
     if isinstance(call.func, ast.Attribute) and call.func.attr == "fill" and not _is_np(d):
         out.append(call.func.value)
     return out
+
+
+_CHAIN_TESTS = {}
+
+
+def chain_test(node):
+    """`a < b <= c` as `a < b and b <= c` (cached per node: rules and the path explorer identify tests by node)"""
+    k = id(node)
+    if k in _CHAIN_TESTS and _CHAIN_TESTS[k][0] is node:
+        return _CHAIN_TESTS[k][1]
+    parts, left = [], node.left
+    for op, right in zip(node.ops, node.comparators):
+        parts.append(ast.copy_location(ast.Compare(left=left, ops=[op], comparators=[right]), node))
+        left = right
+    t = ast.copy_location(ast.BoolOp(op=ast.And(), values=parts), node)
+    _CHAIN_TESTS[k] = (node, t)
+    return t
 
 
 def match_test(subject, pattern, guard=None):
@@ -723,6 +832,22 @@ class Ev3(AutoEvaluator):
             r = self.compare(node)
             if r is not None:
                 return TRUE if r else FALSE
+        if isinstance(node, ast.Compare) and len(node.ops) > 1:
+            return self._ev(chain_test(node))
+        if isinstance(node, ast.BoolOp):
+            # short-circuit on decided operands: `flag and x` is x when flag is true, `x or default` is x when x is true
+            last = None
+            for v in node.values:
+                x = self.ev(v)
+                t = (len(x) > 0) if isinstance(x, tuple) else ((len(x.d) > 0) if isinstance(x, DictValue) else truth(x))
+                if t is None:
+                    last = None
+                    break
+                last = x
+                if t is (not isinstance(node.op, ast.And)):
+                    return x                        # `and` stops at the first false operand, `or` at the first true one
+            if last is not None:
+                return last
         if isinstance(node, ast.BinOp) and isinstance(node.op, (ast.Add, ast.Sub, ast.Mult, ast.Div, ast.Pow)) \
                 and any(isinstance(x, (ast.Compare, ast.BoolOp)) or (isinstance(x, ast.UnaryOp) and isinstance(x.op, ast.Not))
                         or (isinstance(x, ast.Name) and x.id not in self.buffers and sym_of(self.env.get(x.id)) in ("True", "False")) for x in (node.left, node.right)):
@@ -813,6 +938,9 @@ class Ev3(AutoEvaluator):
         a = self.ev(node.left)
         b = self.ev(node.comparators[0])
         if isinstance(op, (ast.In, ast.NotIn)):
+            sa, sb = str_of(a), str_of(b)
+            if sa is not None and sb is not None:
+                return (sa in sb) == isinstance(op, ast.In)            # substring test on literals
             t = self.as_table(b) if not isinstance(b, tuple) else None
             if t is not None:
                 ok, k = pykey(a)                       # key in table
@@ -832,6 +960,8 @@ class Ev3(AutoEvaluator):
             for x, k in ((a, kb), (b, ka)):
                 if isinstance(x, (tuple, DictValue)) and k is not None and k[0] == "n":
                     return isinstance(op, (ast.NotEq, ast.IsNot))
+                if isinstance(x, (PyTuple, DictValue)) and k is not None:
+                    return isinstance(op, (ast.NotEq, ast.IsNot))          # a display / table is not a number or a string
                 if k == ("n", "None") and self.not_none(x):
                     return isinstance(op, (ast.NotEq, ast.IsNot))
         if ka is None or kb is None:
@@ -1022,6 +1152,8 @@ class Ev3(AutoEvaluator):
             return r
         if id(test) in self.raise_only:
             return False
+        if isinstance(test, ast.Compare) and len(test.ops) > 1:
+            return self.decide(chain_test(test))
         if isinstance(test, ast.UnaryOp) and isinstance(test.op, ast.Not):
             r = self.decide(test.operand)
             return None if r is None else (not r)
@@ -1402,6 +1534,9 @@ class Ev3(AutoEvaluator):
             self.cell_seq.append(self.seq)
             self.cells.append((view[0], view[1], v, st))
             return
+        uc = unfn(cur) if (cur is not None and not is_unknown(cur) and not isinstance(cur, (tuple, DictValue))) else None
+        if uc and uc[0] in ("empty", "zeros") and plainv and not isinstance(uc[1][0], str) and not depends(v, "<never>") and (unfn(v) or ("",))[0] not in ("empty", "zeros"):
+            v = F.fn("zeros", uc[1][0]) + v          # a freshly allocated array filled as a whole: its shape stays known
         self.env[n] = v
         if cur is not None:
             for m, val in list(self.env.items()):
@@ -1936,7 +2071,7 @@ class Sem3:
     """one evaluation of `fn` on symbols (see sem.Sem); parameters are symbols of their own names unless `env` says otherwise"""
 
     def __init__(self, ctx, fn, rel, cond=None, env=None, hooks=(), sub_hooks=(), explore_hook=None, inline=True, run=True, stmts=None, seed_params=True,
-                 exclude=(), module_state=None, arrays=()):
+                 exclude=(), module_state=None, arrays=(), binop=None):
         self.ctx = ctx
         self.fn = fn
         e = {}
@@ -1945,7 +2080,7 @@ class Sem3:
             for x in a.posonlyargs + a.args + a.kwonlyargs:
                 e[x.arg] = F.sym(x.arg)
         e.update(env or {})
-        self.ev = Ev3(fn, src=ctx.src, cond=cond, env=e)
+        self.ev = Ev3(fn, src=ctx.src, cond=cond, env=e, binop=binop)
         cache = ctx.__dict__.setdefault("_c03_tables", {})
         if rel not in cache:
             table = module_funcs(ctx, rel)
